@@ -303,11 +303,14 @@ def op_write_read(ctx, st, op, prop, info):
             log.append([which, "read_raised", type(e).__name__])
             continue
         log.append([which, "ok", len(data)])
-        if judge and in_domain:
+        out_of_step = which == "az" and bool(getattr(st, "member_before_write", None))
+        if out_of_step:
+            ctx.probe("members_out_of_step_at_write")       # the caller updated one member alone: not judged
+        if judge and in_domain and not out_of_step:
             judge_roundtrip(ctx, st, which, obj, R, data, op, fs)
         # continue the history on the read-back object; the written one becomes its shadow
         st.objs[which] = R
-        if judge and in_domain:
+        if judge and in_domain and not out_of_step:
             if getattr(st, "shadow", None) is None:
                 sh = M.State()
                 sh.__dict__.update({k: v for k, v in st.__dict__.items() if k not in ("objs", "shadow", "fs")})
